@@ -18,7 +18,18 @@ pub mod wl_draw;
 pub mod wl_gvar;
 pub mod wl_iup;
 
-pub const REPLAY: Option<fn(&mut Ctx, &Args, &serde_json::Value, Option<&[u8]>)> = None;
+pub const REPLAY: Option<fn(&mut Ctx, &Args, &serde_json::Value, Option<&[u8]>)> = Some(replay);
+
+fn replay(ctx: &mut Ctx, args: &Args, rec: &serde_json::Value, data: Option<&[u8]>) {
+    let sig = rec["signature"].as_str().unwrap_or("");
+    match (sig.starts_with("draw:outline-differs"), data) {
+        (true, Some(d)) => wl_draw::replay_draw(ctx, rec, d),
+        _ => {
+            eprintln!("vf: no single-case replay for this signature; re-running the workload with the recorded seed");
+            run(ctx, args)
+        }
+    }
+}
 
 pub fn run(ctx: &mut Ctx, _args: &Args) {
     ctx.policy = PanicPolicy::Any;
@@ -51,11 +62,11 @@ pub fn run(ctx: &mut Ctx, _args: &Args) {
 
     // (ii) + (iii) fonts built by the harness
     let budgets: [(&'static str, usize, usize); 5] = [
-        ("small", 2500, 30_000),
-        ("shared", 600, 6_000),
-        ("runs", 500, 5_000),
-        ("big", 48, 480),
-        ("long-offsets", 16, 64),
+        ("small", 60_000, 400_000),
+        ("shared", 12_000, 80_000),
+        ("runs", 8_000, 50_000),
+        ("big", 320, 2_400),
+        ("long-offsets", 48, 240),
     ];
     let mut item = 0usize;
     for (profile, q, t) in budgets {
@@ -101,7 +112,7 @@ pub fn run(ctx: &mut Ctx, _args: &Args) {
     // (iii) corpus variable fonts with their own gvar
     let fonts = vf_core::corpus_fonts();
     let mut item = 0usize;
-    let per_font_glyphs = ctx.tier.pick(400usize, 4000);
+    let per_font_glyphs = ctx.tier.pick(3000usize, 100_000);
     for f in fonts {
         let Ok(font) = read_fonts::FontRef::new(&f.data) else { continue };
         use read_fonts::TableProvider;
@@ -117,7 +128,7 @@ pub fn run(ctx: &mut Ctx, _args: &Args) {
                 continue;
             }
             let mut rng = Rng::derive(ctx.seed, &f.name, gid as u64);
-            let locs = ctx.tier.pick(8, 20);
+            let locs = ctx.tier.pick(16, 64);
             let st = wl_draw::check_draw_font(ctx, &f.data, &f.name, &[gid as u32], locs, &mut rng, false, 0);
             ctx.count("draw_corpus_comparisons", st.compared);
         }
